@@ -38,6 +38,12 @@ func init() {
 			Old:   "func NewQuality(msg *MsgQuality) (*Quality, error) {\n\tif msg == nil {\n\t\treturn nil, errNilMsg\n\t}\n",
 			New:   "func NewQuality(msg *MsgQuality) (*Quality, error) {\n",
 			File2: fProto, Old2: "\t\tquality, err := NewQuality(msg.Qualities[i])\n", New2: "\t\tif msg.Qualities[i] == nil {\n\t\t\treturn errNilMsg\n\t\t}\n\t\tquality, err := NewQuality(msg.Qualities[i])\n"},
+		{Name: "default send and receive limits exchanged (seed C16-r2c)", Kill: true, Rule: "C16-FRAME", File: "fractal/connection/options.go",
+			Old: "\tdefaultMaxRecvMsgSize        = 2 * 1024 * 1024\n\tdefaultMaxSendMsgSize        = math.MaxUint32\n", New: "\tdefaultMaxRecvMsgSize        = math.MaxUint32\n\tdefaultMaxSendMsgSize        = 2 * 1024 * 1024\n"},
+		{Name: "decode error shadowed in readRemoteMessage (seed C16-r2b)", Kill: true, Rule: "C16-RECV", File: "fractal/reader.go",
+			Old: "\treturn protocol.DecodeMessage(data)\n", New: "\tif m, err := protocol.DecodeMessage(data); err != nil {\n\t\tlogging.CPrint(logging.WARN, \"undecodable frame\", logging.LogFormat{\"err\": err})\n\t} else {\n\t\treturn m, nil\n\t}\n\treturn nil, nil\n"},
+		{Name: "decode result returned through locals", Kill: false, File: "fractal/reader.go",
+			Old: "\treturn protocol.DecodeMessage(data)\n", New: "\tm, derr := protocol.DecodeMessage(data)\n\tif derr != nil {\n\t\treturn nil, derr\n\t}\n\treturn m, nil\n"},
 	}
 }
 
